@@ -37,7 +37,7 @@ FILES = {
     'simple-mdns/src/async_discovery/service_discovery.rs': ['C14', 'C15'],
     'simple-mdns/src/async_discovery/simple_responder.rs': ['C14'],
 }
-RDATA_CHECKS = ['C01', 'C02', 'C04', 'C10', 'C11', 'C16']
+RDATA_CHECKS = ['C01', 'C02', 'C04', 'C10', 'C18', 'C11', 'C16']
 for f in sorted(os.listdir('/repo/simple-dns/src/dns/rdata')):
     if f.endswith('.rs') and f not in ('mod.rs', 'macros.rs'):
         extra = {'opt.rs': ['C09', 'C05'], 'txt.rs': ['C19', 'C12', 'C15'], 'svcb.rs': ['C07'], 'nsec.rs': ['C07'], 'ipseckey.rs': ['C07']}.get(f, [])
@@ -57,8 +57,16 @@ def code_lines(path):
     out = []
     skip_block = 0
     in_test = False
+    in_comment = False
     for i, l in enumerate(src):
         s = l.strip()
+        if in_comment:
+            if '*/' in s:
+                in_comment = False
+            continue
+        if s.startswith('/*'):
+            in_comment = '*/' not in s
+            continue
         if s.startswith('#[cfg(test)]'):
             in_test = True
         if in_test:
